@@ -41,6 +41,18 @@ func (p Person) Greeting() string { return "hi " + p.Name }
 // Upper is a pointer-receiver method.
 func (p *Person) Upper() string { return strings.ToUpper(p.Name) }
 
+// Counter has a pointer-receiver method that writes to its receiver.
+type Counter struct {
+	N     int
+	Calls int
+}
+
+// Next mutates the receiver (think of a memoising getter).
+func (c *Counter) Next() int { c.Calls++; c.N++; return c.N }
+
+// Label is a pure value-receiver method.
+func (c Counter) Label() string { return fmt.Sprintf("c%d", c.N) }
+
 // Label implements a Stringer-like value.
 type Label struct{ Text string }
 
@@ -153,6 +165,12 @@ func (v *Val) Build(order int) interface{} {
 		return Label{v.S}
 	case "time":
 		return time.Unix(v.I, 0).UTC()
+	case "counters": // []Counter (struct values)
+		out := make([]Counter, 0, len(v.L))
+		for _, e := range v.L {
+			out = append(out, Counter{N: int(e.I)})
+		}
+		return out
 	case "fmap": // map[float64]string
 		out := make(map[float64]string)
 		for _, kv := range ents() {
